@@ -48,6 +48,18 @@ func genTree(r *hutil.Rng, depth int) *Node {
 	return n
 }
 
+func hasNoWait(n *Node) bool {
+	if n.NoWait {
+		return true
+	}
+	for _, c := range n.Children {
+		if hasNoWait(c) {
+			return true
+		}
+	}
+	return false
+}
+
 type renderer struct {
 	dir   string
 	count int
@@ -125,6 +137,24 @@ func procsWithMark(mark string) []int {
 	return pids
 }
 
+// pgidOf reads the process group of a process from /proc/<pid>/stat
+func pgidOf(pid int) int {
+	st, err := os.ReadFile(fmt.Sprintf("/proc/%d/stat", pid))
+	if err != nil {
+		return -1
+	}
+	i := bytes.LastIndexByte(st, ')')
+	if i < 0 {
+		return -1
+	}
+	f := strings.Fields(string(st[i+1:]))
+	if len(f) < 3 {
+		return -1
+	}
+	g, _ := strconv.Atoi(f[2])
+	return g
+}
+
 func settle(mark string, max time.Duration) int {
 	deadline := time.Now().Add(max)
 	last, since := -1, time.Now()
@@ -161,6 +191,12 @@ func procMode(seed uint64, rounds int) {
 		// the interpreter itself runs several commands: pipeline, background, sequence
 		"interp": {Concurrency: 64, Tasks: map[string]TaskDef{"t": {Script: []string{
 			"export VERIF_MARK={{.mark}}; sleep 300 & bash {{.file}} | cat; wait"}}}},
+		// the tree is a background command of the interpreter itself
+		"interpbg": {Concurrency: 64, Tasks: map[string]TaskDef{"t": {Script: []string{
+			"export VERIF_MARK={{.mark}}; bash {{.file}} & sleep 300; wait"}}}},
+		// an earlier script line leaves a background process behind and returns; the cancel comes while a later line runs
+		"earlier": {Concurrency: 64, Tasks: map[string]TaskDef{"t": {Script: []string{
+			"VERIF_MARK={{.mark}}E bash {{.efile}}", "VERIF_MARK={{.mark}} bash {{.file}}"}}}},
 		"two": {Concurrency: 64, Tasks: map[string]TaskDef{
 			"t": {Script: []string{"VERIF_MARK={{.mark}} bash {{.file}}"}},
 			"u": {Script: []string{"VERIF_MARK={{.mark}} sleep 300"}}}},
@@ -184,17 +220,27 @@ func procMode(seed uint64, rounds int) {
 		file := filepath.Join(dir, fmt.Sprintf("top_%d.sh", rd.count))
 		_ = os.WriteFile(file, []byte(rd.render(tree)+"\n"), 0755)
 		mark := fmt.Sprintf("m%d_%d_%d", os.Getpid(), seed, round)
-		pipe := []string{"tree", "tree", "interp", "two"}[r.Intn(4)]
+		pipe := []string{"tree", "tree", "interp", "two", "earlier", "interpbg"}[r.Intn(6)]
+		if os.Getenv("REALRUN_PIPE") != "" {
+			pipe = os.Getenv("REALRUN_PIPE")
+		}
+		if round == 1 {
+			pipe = "earlier"
+		}
+		efile := filepath.Join(dir, "earlier.sh")
+		_ = os.WriteFile(efile, []byte("sleep 300 >/dev/null 2>&1 </dev/null &\n"), 0755)
 		rec := map[string]interface{}{"kind": "proc", "round": round, "pipeline": pipe, "tree": tree, "mark": mark}
 		script, _ := os.ReadFile(file)
 		rec["script"] = string(script)
-		id, st, msg := a.Schedule(pipe, map[string]interface{}{"mark": mark, "file": file})
+		id, st, msg := a.Schedule(pipe, map[string]interface{}{"mark": mark, "file": file, "efile": efile})
 		if st != 202 {
 			rec["ok"], rec["what"] = false, fmt.Sprintf("schedule: %d %s", st, msg)
 			emit(rec)
 			continue
 		}
-		early := r.Chance(1, 3)
+		// cancel while the tree is still being built - only for trees in which no process exits by itself, so that
+		// "the command had returned before the cancel" is never a matter of milliseconds
+		early := r.Chance(1, 3) && !hasNoWait(tree)
 		if early {
 			// cancel while the tree is still being built
 			for i := 0; i < 500 && len(procsWithMark(mark)) == 0; i++ {
@@ -206,28 +252,71 @@ func procMode(seed uint64, rounds int) {
 		}
 		before := procsWithMark(mark)
 		rec["early"], rec["procs_before"] = early, len(before)
+		// groups whose leader is already gone before the cancel: their command has returned
+		alivePid := map[int]bool{}
+		for _, p := range before {
+			alivePid[p] = true
+		}
+		orphanGroup := map[int]bool{}
+		for _, p := range before {
+			if g := pgidOf(p); g > 0 && !alivePid[g] {
+				orphanGroup[g] = true
+			}
+		}
 		t0 := time.Now()
 		cst := a.Cancel(id)
 		res, done := a.WaitDone(id, 4*killTimeout)
 		report := time.Since(t0)
 		at := procsWithMark(mark)
+		earlierAt := len(procsWithMark(mark + "E"))
 		var atCmd []string
+		atOrphan := 0
 		for _, p := range at {
-			atCmd = append(atCmd, fmt.Sprintf("%d:%s", p, cmdline(p)))
+			g := pgidOf(p)
+			if orphanGroup[g] {
+				atOrphan++
+			}
+			atCmd = append(atCmd, fmt.Sprintf("%d(pgid %d):%s", p, g, cmdline(p)))
 		}
 		// scheduling latency: a killed process may need a moment to be gone
 		time.Sleep(100 * time.Millisecond)
 		soon := procsWithMark(mark)
+		soonOrphan := 0
+		for _, p := range soon {
+			if orphanGroup[pgidOf(p)] {
+				soonOrphan++
+			}
+		}
 		bystanders := len(procsWithMark(byMark))
 		time.Sleep(killTimeout + 300*time.Millisecond - report)
 		final := procsWithMark(mark)
+		earlierFinal := procsWithMark(mark + "E")
+		final = append(final, earlierFinal...)
+		if pipe == "earlier" {
+			rec["earlier_alive_at_report"], rec["earlier_alive_after_timeout"] = earlierAt, len(earlierFinal)
+			if earlierAt > 0 {
+				rec["finding"] = "earlier-line-leftover"
+			}
+		}
 		rec["cancel_status"], rec["reported"], rec["report_ms"] = cst, done, report.Milliseconds()
 		rec["alive_at_report"], rec["alive_at_report_cmd"], rec["alive_100ms_after_report"], rec["alive_after_timeout"] = len(at), atCmd, len(soon), len(final)
 		rec["bystanders"], rec["bystanders_expected"] = bystanders, byCount
 		if res != nil {
 			rec["canceled"] = res.Canceled
 		}
+		rec["alive_at_report_returned_groups"], rec["groups_returned_before_cancel"] = atOrphan, len(orphanGroup)
+		if soonOrphan > 0 && soonOrphan == len(soon) && len(final) == 0 {
+			// all survivors belong to commands that had returned before the cancel (their leader was gone): the known finding
+			rec["finding"] = "earlier-line-leftover"
+			soon = nil
+		}
 		ok := done && len(soon) == 0 && len(final) == 0 && bystanders == byCount && report <= killTimeout+1500*time.Millisecond && res != nil && res.Canceled
+		if res != nil && done && !res.Canceled {
+			// the task had already finished by itself when the cancel arrived (the tree's leader exited and nobody held the
+			// pipes): not a canceled job, outside the property
+			rec["not_canceled"] = true
+			ok = bystanders == byCount
+		}
 		rec["ok"] = ok
 		emit(rec)
 		for _, p := range final {
@@ -246,4 +335,15 @@ func procMode(seed uint64, rounds int) {
 	for _, p := range left {
 		_ = syscall.Kill(p, syscall.SIGKILL)
 	}
+}
+
+// procChild: one task on a real TaskRunner in this process (to be run under strace): script lines from the command
+// line; marker system calls (kill with signal 0 to impossible pids) delimit the cancel and the report
+func procChild(lines []string, settleMs int) {
+	dir, err := os.MkdirTemp("", "realrun-child")
+	if err != nil {
+		panic(err)
+	}
+	defer os.RemoveAll(dir)
+	runChildTask(dir, lines, settleMs)
 }
